@@ -286,6 +286,9 @@ func (a *AggregationProcess) ForAllExpiredFlowRecordsDo(callback FlowKeyRecordMa
 		}
 		err := callback(*pqItem.flowKey, pqItem.flowRecord)
 		if err != nil {
+			// The flow record is still in the map: keep it in the priority queue, so
+			// that it is handed to the callback again at the next call.
+			heap.Push(&a.expirePriorityQueue, pqItem)
 			return fmt.Errorf("callback execution failed for popped flow record with key: %v, record: %v, error: %v", pqItem.flowKey, pqItem.flowRecord, err)
 		}
 		// Delete the flow record if it is expired because of inactive expiry timeout.
